@@ -89,6 +89,20 @@ let dispatch (op : string) (a : string array) : string =
      | Panic PBadOracle -> "bad-oracle"
      | Panic _ -> "panic"
      | Err _ -> "err")
+  | "encode" ->
+    let trace = if Array.length a > 6 then Some (parse_trace a.(6)) else None in
+    let eci = if a.(5) = "N" then None else Some (n_of_int (int_of_string a.(5))) in
+    (match d_encode (nlist a.(0)) (nlist a.(1)) (n_of_int (int_of_string a.(2))) (a.(3) = "1") (a.(4) = "1") eci trace with
+     | Ok ((s, dcw), cw) -> Printf.sprintf "ok %d %s %s" (int_of_n (variant_index s)) (shown dcw) (shown cw)
+     | Err TooMuchOrIllegalData -> "err TooMuchOrIllegalData" | Err SymbolListEmpty -> "err SymbolListEmpty"
+     | Panic PBadOracle -> "bad-oracle" | Panic _ -> "panic")
+  | "encode_str" ->
+    let trace = if Array.length a > 2 then Some (parse_trace a.(2)) else None in
+    if not (List.for_all (fun c -> c < 0xD800 || (c >= 0xE000 && c < 0x110000)) (ints a.(0))) then "not-a-string" else
+    (match d_encode_str (nlist a.(0)) (nlist a.(1)) trace with
+     | Ok ((s, dcw), cw) -> Printf.sprintf "ok %d %s" (int_of_n (variant_index s)) (shown dcw)
+     | Err TooMuchOrIllegalData -> "err TooMuchOrIllegalData" | Err SymbolListEmpty -> "err SymbolListEmpty"
+     | Panic PBadOracle -> "bad-oracle" | Panic _ -> "panic")
   | "decode_data" -> show_dec shown (d_decode_data (nlist a.(0)))
   | "decode_str" -> show_dec shown (d_decode_str (nlist a.(0)))
   | "read_eci" -> show_dec (fun (n, e) -> Printf.sprintf "%d %d" (int_of_n n) (int_of_n e)) (d_read_eci (nlist a.(0)))
